@@ -307,8 +307,9 @@ HRPwrite(accrec_t *access_rec, int32 length, const void *data)
         length = info->image_size;
 
     /* Copy data to buffer */
-    DFputcomp(info->fid, info->tag, info->ref, data, info->xdim, info->ydim, NULL, NULL, info->scheme,
-              &(info->cinfo));
+    if (DFputcomp(info->fid, info->tag, info->ref, data, info->xdim, info->ydim, NULL, NULL, info->scheme,
+                  &(info->cinfo)) == FAIL)
+        HGOTO_ERROR(DFE_WRITEERROR, FAIL);
 
     ret_value = length; /* return length of bytes written */
 
